@@ -1,8 +1,5 @@
 (* Solvers built by Network.FastNetworkSolver from a network with control nodes ([fast_of_net_mod]) satisfy the
-   premises of the modular Flush theorem (ModSpecFast): sensorNeuronCount <= totalNeuronCount, and [flush_ok]
-   whenever no control node has an outgoing link into a bias node.  The reason: indices below biasNeuronCount are
-   given to bias nodes only (the first processList call), no connection ends there (the incoming links of bias
-   nodes are not translated), so only a module output into a bias node can write such a slot. *)
+   premise of the modular Flush theorem (ModSpecFast): sensorNeuronCount <= totalNeuronCount. *)
 From NeatModel Require Import Res Net Fast NetMod FastMod SolverUtil FlushBuild ModSpecFast.
 From Coq Require Import Arith Lia.
 Open Scope nat_scope.
@@ -11,167 +8,6 @@ Section ModSpecBuild.
 Variable F : Type.
 Variable NF : num F.
 
-(* ----- the lookup table, as a list ----- *)
-Definition entries (l : list nat) (start : nat) : list (nat * nat) := rev (combine l (seq start (length l))).
-
-Lemma process_list_spec (n : net F) total l : forall start acts lk r,
-  process_list n total start l acts lk = Ok r ->
-  fst (fst r) = start + length l /\ snd r = entries l start ++ lk.
-Proof.
-  induction l as [|p rest IH]; intros start acts lk r H; simpl in H.
-  - injection H as <-. simpl. split; [lia|reflexivity].
-  - destruct (start <? total); [|discriminate].
-    destruct (IH _ _ _ _ H) as [A B]. split; [simpl; lia|].
-    rewrite B. unfold entries. simpl. rewrite <- app_assoc. reflexivity.
-Qed.
-
-Lemma find_idx_app l1 l2 p :
-  find_idx (l1 ++ l2) p = match find_idx l1 p with Some i => Some i | None => find_idx l2 p end.
-Proof.
-  induction l1 as [|[q i] l1 IH]; simpl; [reflexivity|]. destruct (q =? p); [reflexivity|exact IH].
-Qed.
-
-Lemma find_idx_in l p i : find_idx l p = Some i -> In (p, i) l.
-Proof.
-  induction l as [|[q j] l IH]; simpl; [discriminate|].
-  destruct (q =? p) eqn:E.
-  - intros H. injection H as <-. apply Nat.eqb_eq in E. subst q. left. reflexivity.
-  - intros H. right. exact (IH H).
-Qed.
-
-Lemma find_idx_some l p i : In (p, i) l -> find_idx l p <> None.
-Proof.
-  induction l as [|[q j] l IH]; simpl; [tauto|].
-  intros [E|H].
-  - injection E as -> ->. rewrite Nat.eqb_refl. discriminate.
-  - destruct (q =? p); [discriminate|exact (IH H)].
-Qed.
-
-Lemma in_entries p i l s : In (p, i) (entries l s) -> In p l /\ s <= i.
-Proof.
-  unfold entries. rewrite <- in_rev. revert s. induction l as [|q l IH]; intros s; simpl; [tauto|].
-  intros [E|H].
-  - injection E as -> ->. auto.
-  - destruct (IH _ H) as [A B]. split; [auto|lia].
-Qed.
-
-Lemma entries_has p l s : In p l -> exists i, In (p, i) (entries l s).
-Proof.
-  unfold entries. revert s. induction l as [|q l IH]; intros s; simpl; [tauto|].
-  intros [->|H].
-  - exists s. apply in_or_app. right. left. reflexivity.
-  - destruct (IH (S s) H) as [i Hi]. exists i. apply in_or_app. left. exact Hi.
-Qed.
-
-(* a node that is not a bias node, or is listed in Outputs, gets an index >= biasNeuronCount *)
-Lemma lookup_ge (n : net F) k p i :
-  net_lookup n = Ok k -> find_idx k p = Some i ->
-  is_bias (role_at n p) = false \/ In p (outputs n) ->
-  length (positions_with n is_bias) <= i.
-Proof.
-  unfold net_lookup.
-  destruct (process_list n (nnodes n) 0 (positions_with n is_bias) (repeat 0%Z (nnodes n)) []) as [[[i1 a1] k1]| | | | |] eqn:E1; try discriminate.
-  destruct (process_list n (nnodes n) i1 (positions_with n is_input) a1 k1) as [[[i2 a2] k2]| | | | |] eqn:E2; try discriminate.
-  destruct (process_list n (nnodes n) i2 (outputs n) a2 k2) as [[[i3 a3] k3]| | | | |] eqn:E3; try discriminate.
-  destruct (process_list n (nnodes n) i3 (positions_with n is_hidden) a3 k3) as [[[i4 a4] k4]| | | | |] eqn:E4; try discriminate.
-  intros H. injection H as <-.
-  destruct (process_list_spec _ _ _ _ _ _ _ E1) as [A1 B1]. destruct (process_list_spec _ _ _ _ _ _ _ E2) as [A2 B2].
-  destruct (process_list_spec _ _ _ _ _ _ _ E3) as [A3 B3]. destruct (process_list_spec _ _ _ _ _ _ _ E4) as [A4 B4].
-  simpl in *. subst k4 k3 k2 k1. rewrite app_nil_r.
-  set (b := length (positions_with n is_bias)) in *.
-  intros Hf Hp. rewrite !find_idx_app in Hf.
-  destruct (find_idx (entries (positions_with n is_hidden) i3) p) as [j|] eqn:F4.
-  { injection Hf as <-. apply find_idx_in, in_entries in F4. lia. }
-  destruct (find_idx (entries (outputs n) i2) p) as [j|] eqn:F3.
-  { injection Hf as <-. apply find_idx_in, in_entries in F3. lia. }
-  destruct (find_idx (entries (positions_with n is_input) i1) p) as [j|] eqn:F2.
-  { injection Hf as <-. apply find_idx_in, in_entries in F2. lia. }
-  exfalso. apply find_idx_in, in_entries in Hf. destruct Hf as [Hb _].
-  destruct Hp as [Hp|Hp].
-  - unfold positions_with in Hb. apply filter_In in Hb. destruct Hb as [_ Hb]. congruence.
-  - destruct (entries_has p (outputs n) i2 Hp) as [j Hj]. exact (find_idx_some _ _ _ Hj F3).
-Qed.
-
-(* ----- connections never end below biasNeuronCount ----- *)
-Lemma proc_links_tgts (n : net F) lk tgt ls : forall b c b' c',
-  proc_links NF n lk tgt ls b c = Ok (b', c') -> forall x, In x c' -> In x c \/ fl_tgt x = tgt.
-Proof.
-  induction ls as [|l rest IH]; intros b c b' c' H x Hx; simpl in H.
-  - injection H as <- <-. auto.
-  - destruct (find_idx lk (l_src l)) as [src|]; [|discriminate].
-    destruct (is_bias (role_at n (l_src l))).
-    + exact (IH _ _ _ _ H x Hx).
-    + destruct (IH _ _ _ _ H x Hx) as [Hc|Ht]; [|auto].
-      apply in_app_or in Hc. destruct Hc as [Hc|[<-|[]]]; auto.
-Qed.
-
-Lemma proc_incoming_tgts (n : net F) lk nl : forall b c b' c',
-  proc_incoming NF n lk nl b c = Ok (b', c') ->
-  forall x, In x c' -> In x c \/ exists p, In p nl /\ find_idx lk p = Some (fl_tgt x).
-Proof.
-  induction nl as [|p rest IH]; intros b c b' c' H x Hx; simpl in H.
-  - injection H as <- <-. auto.
-  - destruct (find_idx lk p) as [tgt|] eqn:Et; [|discriminate].
-    destruct (proc_links NF n lk tgt (nd_in (node_at n p)) b c) as [[b1 c1]| | | | |] eqn:El; try discriminate.
-    destruct (IH _ _ _ _ H x Hx) as [Hc|(q & Hq & Hf)].
-    + destruct (proc_links_tgts n lk tgt _ _ _ _ _ El x Hc) as [Hc0|Ht]; [auto|].
-      right. exists p. split; [simpl; auto|]. rewrite Ht. exact Et.
-    + right. exists q. split; [simpl; auto|exact Hf].
-Qed.
-
-Lemma fast_of_net_targets (n : net F) (fn : fnet F) :
-  fast_of_net NF n = Ok fn ->
-  f_bias fn = length (positions_with n is_bias) /\
-  exists k, net_lookup n = Ok k /\
-    forall x, In x (f_conns fn) -> exists p, (is_bias (role_at n p) = false \/ In p (outputs n)) /\ find_idx k p = Some (fl_tgt x).
-Proof.
-  unfold fast_of_net, net_lookup.
-  destruct (process_list n (nnodes n) 0 (positions_with n is_bias) (repeat 0%Z (nnodes n)) []) as [[[i1 a1] k1]| | | | |]; try discriminate.
-  destruct (process_list n (nnodes n) i1 (positions_with n is_input) a1 k1) as [[[i2 a2] k2]| | | | |]; try discriminate.
-  destruct (process_list n (nnodes n) i2 (outputs n) a2 k2) as [[[i3 a3] k3]| | | | |]; try discriminate.
-  destruct (process_list n (nnodes n) i3 (positions_with n is_hidden) a3 k3) as [[[i4 a4] k4]| | | | |]; try discriminate.
-  destruct (proc_incoming NF n k4 (positions_with n is_input) (repeat (fzero NF) (nnodes n)) []) as [[b1 c1]| | | | |] eqn:P1; try discriminate.
-  destruct (proc_incoming NF n k4 (positions_with n is_hidden) b1 c1) as [[b2 c2]| | | | |] eqn:P2; try discriminate.
-  destruct (proc_incoming NF n k4 (outputs n) b2 c2) as [[b3 c3]| | | | |] eqn:P3; try discriminate.
-  unfold new_fast. destruct (_ && _); [|discriminate]. intros H. injection H as <-. simpl.
-  split; [reflexivity|]. exists k4. split; [reflexivity|].
-  assert (R : forall t q, In q (positions_with n t) -> t (role_at n q) = true).
-  { intros t q Hq. unfold positions_with in Hq. apply filter_In in Hq. apply Hq. }
-  intros x Hx.
-  destruct (proc_incoming_tgts n k4 _ _ _ _ _ P3 x Hx) as [Hc|(p & Hp & Hf)]; [|exists p; auto].
-  destruct (proc_incoming_tgts n k4 _ _ _ _ _ P2 x Hc) as [Hc1|(p & Hp & Hf)].
-  - destruct (proc_incoming_tgts n k4 _ _ _ _ _ P1 x Hc1) as [[]|(p & Hp & Hf)].
-    exists p. split; [|exact Hf]. left. apply R in Hp. destruct (role_at n p); simpl in *; congruence.
-  - exists p. split; [|exact Hf]. left. apply R in Hp. destruct (role_at n p); simpl in *; congruence.
-Qed.
-
-(* ----- module indices are lookups of the control nodes' link ends ----- *)
-Lemma lookup_all_spec k code ps : forall is,
-  lookup_all k code ps = Ok is -> forall j, In j is -> exists p, In p ps /\ find_idx k p = Some j.
-Proof.
-  induction ps as [|p rest IH]; intros is H j Hj; simpl in H.
-  - injection H as <-. destruct Hj.
-  - destruct (find_idx k p) as [i|] eqn:E; [|discriminate].
-    destruct (lookup_all k code rest) as [is'| | | | |]; try discriminate. injection H as <-.
-    destruct Hj as [<-|Hj].
-    + exists p. simpl. auto.
-    + destruct (IH _ eq_refl j Hj) as (q & Hq & Hf). exists q. simpl. auto.
-Qed.
-
-Lemma mods_of_outs k cs : forall ms,
-  mods_of k cs = Ok ms -> forall m j, In m ms -> In j (fmd_outs m) ->
-  exists c p, In c cs /\ In p (cn_out c) /\ find_idx k p = Some j.
-Proof.
-  induction cs as [|c rest IH]; intros ms H m j Hm Hj; simpl in H.
-  - injection H as <-. destruct Hm.
-  - destruct (lookup_all k ErrLookupModuleIn (cn_in c)) as [ins| | | | |]; try discriminate.
-    destruct (lookup_all k ErrLookupModuleOut (cn_out c)) as [outs| | | | |] eqn:Eo; try discriminate.
-    destruct (mods_of k rest) as [ms'| | | | |]; try discriminate. injection H as <-.
-    destruct Hm as [<-|Hm].
-    + simpl in Hj. destruct (lookup_all_spec _ _ _ _ Eo j Hj) as (p & Hp & Hf). exists c, p. simpl. auto.
-    + destruct (IH _ eq_refl m j Hm Hj) as (c' & p & Hc & Hp & Hf). exists c', p. simpl. auto.
-Qed.
-
 Theorem fast_of_net_mod_sensor_le (n : mnet F) (fx : fmnet F) :
   fast_of_net_mod NF n = Ok fx -> f_sensor (fx_net fx) <= f_total (fx_net fx).
 Proof.
@@ -179,29 +15,6 @@ Proof.
   destruct (net_lookup (m_net n)) as [k| | | | |]; try discriminate.
   destruct (mods_of k (m_ctrl n)) as [ms| | | | |]; try discriminate.
   intros H. injection H as <-. simpl. exact (fast_of_net_sensor_le F NF _ _ E).
-Qed.
-
-(* no control node writes into a bias node: Flush is a reset for the solver built from the network *)
-Theorem fast_of_net_mod_flush_ok (n : mnet F) (fx : fmnet F) :
-  fast_of_net_mod NF n = Ok fx ->
-  (forall c p, In c (m_ctrl n) -> In p (cn_out c) -> is_bias (role_at (m_net n) p) = false) ->
-  flush_ok F fx = true.
-Proof.
-  unfold fast_of_net_mod. destruct (fast_of_net NF (m_net n)) as [fn| | | | |] eqn:E; try discriminate.
-  destruct (fast_of_net_targets _ _ E) as (Hb & k & Hk & Hc). rewrite Hk.
-  destruct (mods_of k (m_ctrl n)) as [ms| | | | |] eqn:Em; try discriminate.
-  intros H Hout. injection H as <-.
-  unfold flush_ok. simpl. rewrite forallb_forall. intros m _. rewrite forallb_forall. intros j _.
-  unfold readable. simpl. destruct (f_bias fn <=? j) eqn:Ej; [reflexivity|]. apply Nat.leb_gt in Ej. simpl.
-  apply negb_true_iff. unfold written. simpl. apply orb_false_iff. split.
-  - destruct (existsb (fun c => fl_tgt c =? j) (f_conns fn)) eqn:X; [|reflexivity]. exfalso.
-    apply existsb_exists in X. destruct X as (x & Hx & Et). apply Nat.eqb_eq in Et.
-    destruct (Hc x Hx) as (p & Hp & Hf). pose proof (lookup_ge _ _ _ _ Hk Hf Hp). lia.
-  - destruct (existsb (fun m0 => existsb (Nat.eqb j) (fmd_outs m0)) ms) eqn:X; [|reflexivity]. exfalso.
-    apply existsb_exists in X. destruct X as (m0 & Hm0 & X). apply existsb_exists in X. destruct X as (j' & Hj' & Ee).
-    apply Nat.eqb_eq in Ee. subst j'.
-    destruct (mods_of_outs _ _ _ Em m0 j Hm0 Hj') as (c & p & Hcc & Hp & Hf).
-    pose proof (lookup_ge _ _ _ _ Hk Hf (or_introl (Hout c p Hcc Hp))). lia.
 Qed.
 
 End ModSpecBuild.
